@@ -693,7 +693,16 @@ func runParse(c *ctx, prop string) error {
 		c.res.OracleChecks++
 		base := comparablePipeline(p, false)
 		baseJ := comparablePipeline(p, true)
+		exoticTyped := timestampInTypedPosition(treeV)
 		for leg, text := range map[string][]byte{"json": jb, "yaml": yb} {
+			if leg == "json" && exoticTyped {
+				// scoping decision (DESIGN §7): typed-string positions take the four scalar kinds the unmarshaller
+				// documents; a YAML timestamp there (only reachable here through a `<<` key the generator wrote,
+				// which block YAML turns into a real merge) makes the step unknown, and the JSON text carries it as
+				// a string
+				c.res.Hist("c09.json-leg-skipped-timestamp-in-typed-position")
+				continue
+			}
 			if leg == "yaml" && yamlLegExcluded(dump.Pipeline(p)) {
 				c.res.Hist("c09.yaml-leg-excluded")
 				continue
@@ -851,6 +860,64 @@ func hasDegenerateMatrix(v any) bool {
 		}
 		for _, kv := range t {
 			if hasDegenerateMatrix(kv.V) {
+				return true
+			}
+		}
+	}
+	return false
+}
+
+// timestampInTypedPosition: a YAML timestamp stands where the typed model wants a string (key, label, command,
+// env / matrix / cache values and their aliases), at any depth.
+func timestampInTypedPosition(v any) bool {
+	isT := func(x any) bool {
+		switch x.(type) {
+		case vl.Time, time.Time:
+			return true
+		}
+		return false
+	}
+	isTime := func(x any) bool {
+		switch t := x.(type) {
+		case vl.Time, time.Time:
+			return true
+		case []any:
+			for _, e := range t {
+				if isT(e) {
+					return true
+				}
+			}
+		case vl.OMap:
+			for _, kv := range t {
+				if isT(kv.V) {
+					return true
+				}
+				if l, ok := kv.V.([]any); ok {
+					for _, e := range l {
+						if isT(e) {
+							return true
+						}
+					}
+				}
+			}
+		}
+		return false
+	}
+	typed := map[string]bool{"key": true, "id": true, "identifier": true, "label": true, "name": true, "command": true, "commands": true,
+		"group": true, "type": true, "env": true, "size": true, "paths": true, "setup": true, "with": true, "cache": true, "matrix": true, "plugins": true}
+	switch t := v.(type) {
+	case []any:
+		for _, e := range t {
+			if timestampInTypedPosition(e) {
+				return true
+			}
+		}
+	case vl.OMap:
+		for _, kv := range t {
+			if typed[kv.K] && isTime(kv.V) {
+				return true
+			}
+			if timestampInTypedPosition(kv.V) {
 				return true
 			}
 		}
